@@ -100,6 +100,25 @@ def lean_word(v):
 
 # ---------------------------------------------------------------- order tables
 
+RMW_KINDS = ('fadd', 'fsub', 'fxor', 'for', 'fand', 'xchg')
+
+
+def ops_match(expected, got):
+    """the skeleton of a function: loads, stores, CAS and fences must be what the model has; a read-modify-write may be
+    spelled with any fetch_* / exchange (which one, and its operand, is compared value by value at run time)"""
+    if len(expected) != len(got):
+        return False
+    for e, g in zip(expected, got):
+        if e == g:
+            continue
+        if e in RMW_KINDS and g in RMW_KINDS:
+            continue
+        if e == 'RMW' and g in RMW_KINDS + ('store',):
+            continue
+        return False
+    return True
+
+
 def scan_orders(path, cls, table, status):
     """table: list of (function qualname suffix, expected op list, [names for each order slot]).
     Returns dict slot-name -> order, using the canonical default when the shape is not recognised."""
@@ -111,8 +130,8 @@ def scan_orders(path, cls, table, status):
         ok = False
         sites = []
         if found:
-            sites = cxxscan.atomic_sites(found[1])
-            if [s['op'] for s in sites] == ops:
+            sites = cxxscan.atomic_sites_inlined(src, found[1])
+            if ops_match(ops, [s['op'] for s in sites]):
                 ok = True
         status['functions'][q] = {
             'recognised': ok,
@@ -283,10 +302,9 @@ def gen_mcs(status):
         ok = False
         sites = []
         if found:
-            sites = cxxscan.atomic_sites(found[1])
+            sites = cxxscan.atomic_sites_inlined(src, found[1])
             got = [s_['op'] for s_ in sites]
-            if len(got) == len(ops) and all(e == g or (e == 'RMW' and g in ('store', 'fxor', 'fadd', 'for', 'fand', 'xchg', 'fsub'))
-                                             for e, g in zip(ops, got)):
+            if ops_match(ops, got):
                 ok = True
         status['functions'][q] = {'recognised': ok, 'expected_ops': ops,
                                   'sites': [{'op': s_['op'], 'orders': s_['orders'], 'recv': s_['recv']} for s_ in sites]}
@@ -350,8 +368,8 @@ def gen_thread(status):
         ok = False
         sites = []
         if found:
-            sites = cxxscan.atomic_sites(found[1])
-            ok = [s_['op'] for s_ in sites] == ops
+            sites = cxxscan.atomic_sites_inlined(src, found[1])
+            ok = ops_match(ops, [s_['op'] for s_ in sites])
         status['functions'][q] = {'recognised': ok, 'expected_ops': ops,
                                   'sites': [{'op': s_['op'], 'orders': s_['orders'], 'recv': s_['recv']} for s_ in sites]}
         if ok:
